@@ -163,6 +163,12 @@ def extract_from(F, anchor):
             raise U("C01.extract", f"index is not read from a constant table: {P.show(x)}", anchor)
         table = x[1][1]
         idx = P.unwiden(x[2])
+        fused_call = None
+        if idx[0] == "field" and idx[2] == 0 and idx[1][0] == "variant" and idx[1][2] == "Some" and P.strip(idx[1][1])[0] == "call" \
+                and P.strip(idx[1][1])[1] in F.fns:
+            # `match flush_key(&cards) { Some(key) => AS_FLUSH[key], None => .. }`: detection and hashing fused in one function
+            fused_call = P.strip(idx[1][1])
+            idx = fused_call
         if idx[0] != "call" or idx[1] not in F.fns:
             raise U("C01.extract", f"table index is not a call of a crate function: {P.show(idx)}", anchor)
         # which arm: the discriminant test of the finder's result
@@ -181,12 +187,19 @@ def extract_from(F, anchor):
             raise U("C01.extract", "arm not selected by the Option discriminant of the flush finder", anchor)
         if arm in arms:
             raise U("C01.extract", f"two paths for arm {arm}", anchor)
-        arms[arm] = dict(table=table, hash_fn=idx[1], hash_args=idx[2], finder=finder)
+        arms[arm] = dict(table=table, hash_fn=idx[1], hash_args=idx[2], finder=finder, fused=fused_call is not None)
     if set(arms) != {"Some", "None"}:
         raise U("C01.extract", f"expected a Some and a None arm, found {sorted(arms)}", anchor)
     f = arms["Some"]["finder"]
     if arms["None"]["finder"] != f or [P.strip(a) for a in f[2]] != [("param", 1)]:
         raise U("C01.extract", "flush finder is not called once on the whole card array", anchor)
+    if arms["Some"].get("fused"):
+        if arms["Some"]["hash_fn"] != f[1]:
+            raise U("C01.extract", "the flush key is not the payload of the tested call", anchor)
+        na = [P.strip(a) for a in arms["None"]["hash_args"]]
+        if na != [("param", 1)]:
+            raise U("C01.extract", "no-flush hash is not called with all cards", anchor)
+        return arms, f[1]
     sa = [P.strip(a) for a in arms["Some"]["hash_args"]]
     want_suit = ("field", ("variant", f, "Some"), 0)
     if len(sa) != 2 or sa[0] != ("param", 1) or P.strip(arms["Some"]["hash_args"][1]) != P.strip(want_suit):
@@ -474,6 +487,172 @@ def analyse_flush_hash(ctx, F, fn):
         raise U(rule, f"rank match does not cover the 13 ranks: {sorted(weights)}", fn)
     ctx.ok(rule, {"fn": fn.path, "fold": "Σ weight(rank) over all 7 cards with suit == detected suit",
                   "weights": weights}, sample=True)
+    return weights
+
+
+def analyse_fused_flush(ctx, F, fn):
+    """template (flush detection and flush key in one pass): per-suit count and per-suit key arrays, both indexed by the suit
+    code of the current card over all seven cards (`count[s] += 1; key[s] += weight(rank)`), then the key of the suit whose
+    count reaches 5 (at most one suit can: 2 * 5 > 7), None when no suit does.  Returns (threshold, weights)."""
+    rule = "C01.order-shape.flush-hash"
+    rule_f = "C01.order-shape.finder"
+    pr = P.Prov(fn)
+    fl = L.for_loops(fn, pr)
+    main = [lp for lp in fl if whole_param_loop(fn, lp, order_free=True)[0]]
+    if len(main) != 1 or len(fl) != 2 or len(fn.cfg.loops()) != 2:
+        raise U(rule, f"expected one loop over the seven cards and one scan of the suit counts, found {len(fl)} loops", fn)
+    main = main[0]
+    scan = [lp for lp in fl if lp is not main][0]
+    if main.header in fn.cfg.reach_from(scan.header) or not fn.cfg.dominates(main.exit_block, scan.header):
+        raise U(rule, "the scan of the suit counts does not follow the loop over the cards", fn)
+
+    def allowed(p, t):
+        return (L.is_next_call(t) or p in WHOLE_ARRAY_ITER_CALLS or p in ORDER_ONLY or card_getter(F, p, SUIT) or card_getter(F, p, RANK)
+                or is_code_call(F, p, SUIT) or is_code_call(F, p, RANK) or P.is_widening_from(p) or p == "core::slice::<impl [T]>::iter")
+    check_calls_whitelisted(F, fn, allowed, rule)
+    arrays = sorted(l for l, st in pr.stores.items() if fn.local_ty(l).startswith("["))
+    if len(arrays) != 2 or len(pr.stores) != 2:
+        raise U(rule, f"expected a count array and a key array as the only stored-to places, found stores to {sorted(pr.stores)}", fn)
+    info = {}
+    for A in arrays:
+        a_term = pr.local(A)
+        if not (a_term[0] == "repeat" and P.const_int(a_term[1]) == 0) or len(pr.stores[A]) != 1:
+            raise U(rule, "a per-suit array is not zero-initialised and updated in exactly one place", fn)
+        (sb, si, pl, rv) = pr.stores[A][0]
+        if sb not in main.body or not L.in_every_iteration(fn, main, sb) or len(pl["proj"]) != 1 or "idx" not in pl["proj"][0]:
+            raise U(rule, "a per-suit array is not updated once per card", fn)
+        idx_t = pr.local(pl["proj"][0]["idx"])
+        if not is_code_of(F, idx_t, lambda t: is_getter_of_item(F, t, main, SUIT), SUIT):
+            ctx.violation(rule_f, f"{fn.path}|suit-index", f"a per-suit array is indexed by {P.show(idx_t)[:80]}, not by the suit code of the current card",
+                          fn=fn.path, file=fn.file, line=fn.blocks[sb]["line"])
+            return None
+        st = pr.rvalue(rv)
+        if not (st[0] == "bin" and st[1] == "Add" and st[2] == ("index", a_term, idx_t)):
+            raise U(rule, f"per-suit update is not `arr[suit] += ..`: {P.show(st)[:80]}", fn)
+        info[A] = (a_term, int(a_term[2]), st[3], sb)
+    cnt = [A for A in arrays if P.const_int(info[A][2]) == 1]
+    key = [A for A in arrays if A not in cnt]
+    if len(cnt) != 1 or len(key) != 1:
+        raise U(rule, "could not tell the count array (+= 1) from the key array (+= weight)", fn)
+    C_, K_ = cnt[0], key[0]
+    codes, _ = code_table(F, SUIT)
+    if max(codes.values()) >= min(info[C_][1], info[K_][1]):
+        ctx.violation(rule_f, f"{fn.path}|counter-array-too-small", "suit codes exceed the per-suit arrays", fn=fn.path, file=fn.file, line=fn.line)
+        return None
+    # weights: a match on the rank with constant arms, or an expression of the rank code
+    W = info[K_][2]
+    rcodes, _ = code_table(F, RANK)
+
+    def foldw(t, rk):
+        t = P.strip(t, calls=False)
+        c = P.const_int(t)
+        if c is not None:
+            return c
+        if t[0] == "cast":
+            return foldw(t[2], rk)
+        if t[0] == "bin":
+            a, b_ = foldw(t[2], rk), foldw(t[3], rk)
+            if a is None or b_ is None:
+                return None
+            return {"Add": lambda: a + b_, "Mul": lambda: a * b_, "Sub": lambda: a - b_ if a >= b_ else None,
+                    "Shl": lambda: a << b_ if 0 <= b_ < 16 else None, "BitOr": lambda: a | b_}.get(t[1], lambda: None)()
+        if t[0] == "call" and len(t[2]) == 1:
+            if is_code_call(F, t[1], RANK) and is_getter_of_item(F, t[2][0], main, RANK):
+                return rcodes[rk]
+            if P.is_widening_from(t[1]):
+                return foldw(t[2][0], rk)
+        return None
+    weights = {rk: foldw(W, rk) for rk in STRENGTH}
+    if any(v is None for v in weights.values()):
+        # match form: one constant per arm of a switch on the current card's rank
+        weights = {}
+        sw_blocks = [b for b in sorted(main.body) if fn.blocks[b]["term"]["k"] == "switch" and b != fn.blocks[main.next_block]["term"]["to"]]
+        rsw = [b for b in sw_blocks if pr.operand(fn.blocks[b]["term"]["on"])[0] == "discr" and
+               is_getter_of_item(F, pr.operand(fn.blocks[b]["term"]["on"])[1], main, RANK)]
+        if len(rsw) != 1 or len(sw_blocks) != 1:
+            raise U(rule, f"rank weights are neither a foldable expression of the rank code nor one match on the rank: {P.show(W)[:100]}", fn)
+        w_local = None
+        for l, ds in sorted(pr.defs.items(), key=lambda kv: len(kv[1])):
+            if pr.local(l) == W:
+                w_local = l
+        if w_local is None:
+            raise U(rule, "weight local not found", fn)
+        for v, tgt in fn.blocks[rsw[0]]["term"]["arms"]:
+            b, val = tgt, None
+            for _ in range(8):
+                for s_ in fn.blocks[b]["stmts"]:
+                    if s_["k"] == "assign" and s_["place"]["l"] == w_local and not s_["place"]["proj"]:
+                        val = P.const_int(pr.rvalue(s_["rv"]))
+                t_ = fn.blocks[b]["term"]
+                if val is not None or t_["k"] not in ("goto", "assert"):
+                    break
+                b = t_["to"]
+            if val is None:
+                raise U(rule, f"weight of rank discriminant {v} is not a constant", fn)
+            weights[I.variant_by_discr(F, RANK, v)] = val
+    elif any(fn.blocks[b]["term"]["k"] == "switch" and b != fn.blocks[main.next_block]["term"]["to"] for b in main.body):
+        raise U(rule, "unexplained branch in the loop over the cards", fn)
+    if set(weights) != set(STRENGTH):
+        raise U(rule, f"rank weights do not cover the 13 ranks: {sorted(weights)}", fn)
+    # the scan: over the count array, first position whose count reaches the threshold; the key of that position
+    s_src, s_chain = scan.chain()
+    if P.strip(s_src) != info[C_][0] or any(c.rsplit("::", 1)[-1] not in ("iter", "into_iter") for c in s_chain):
+        raise U(rule_f, f"the scan does not walk the whole count array: {P.show(s_src)[:60]} via {s_chain}", fn)
+    item = P.strip(scan.item_term)
+    thr = []
+    for (b, lab, op, x, y) in I.rel_edges(fn, pr, F):
+        if b not in scan.body:
+            continue
+        xs, ys = P.strip(x), P.strip(y)
+        if P.const_int(xs) is not None:
+            xs, ys, op = ys, xs, I.FLIP[op]
+        if xs == item and P.const_int(ys) is not None:
+            k_ = {"Ge": P.const_int(ys), "Gt": P.const_int(ys) + 1}.get(op)
+            if k_ is not None:
+                thr.append((b, lab, k_))
+        elif b not in {fn.blocks[scan.next_block]["term"]["to"]}:
+            raise U(rule_f, f"unexplained condition in the scan of the suit counts: {P.show(x)[:40]} {op} {P.show(y)[:20]}", fn)
+    ks = {k_ for (_b, _l, k_) in thr}
+    if len(ks) != 1:
+        raise U(rule_f, f"the scan does not test the count against one threshold: {sorted(ks)}", fn)
+    k = ks.pop()
+    # result: Some(key[position]) behind the threshold edge, None otherwise; position = the scan's running index
+    somes, nones = [], []
+    for b in sorted(fn.cfg.reachable):
+        for s_ in fn.blocks[b]["stmts"]:
+            if s_["k"] == "assign" and s_["place"]["l"] == 0 and not s_["place"]["proj"]:
+                t_ = pr.rvalue(s_["rv"])
+                if t_[0] == "agg" and t_[1].endswith("Option::Some"):
+                    somes.append((b, t_))
+                elif t_[0] == "agg" and t_[1].endswith("Option::None"):
+                    nones.append(b)
+                else:
+                    raise U(rule, f"unexplained return value {P.show(t_)[:60]}", fn)
+    if len(somes) != 1 or not nones:
+        raise U(rule, "expected one Some(key) and a None return", fn)
+    sb_, st_ = somes[0]
+    val = P.strip(P.narrow_deep(P.strip(st_[2][0])))
+    hit_edges = [(b, lab) for (b, lab, _k) in thr]
+    if not (val[0] == "index" and val[1] == info[K_][0]):
+        raise U(rule, f"the returned key is not an element of the per-suit key array: {P.show(val)[:80]}", fn)
+    pos = P.strip(P.narrow_deep(P.strip(val[2])))
+    pos_ok = False
+    for l, ds in pr.defs.items():
+        if pr.local(l) == pos or ("self", l) == pos:
+            al = P.alts(pr.local(l))
+            pos_ok = len(al) == 2 and any(P.const_int(a) == 0 for a in al) and \
+                any(a[0] == "bin" and a[1] == "Add" and a[2] == ("self", l) and P.const_int(a[3]) == 1 for a in al)
+    if not pos_ok:
+        raise U(rule, f"the key is not read at the position where the count reached the threshold: {P.show(pos)[:80]}", fn)
+    if not hit_edges or not I.guarded_by(fn, sb_, hit_edges, start=scan.header):
+        raise U(rule_f, "Some(key) is returned without the count threshold test", fn)
+    if k != 5:
+        ctx.violation(rule_f, f"{fn.path}|flush-threshold", f"flush threshold is {k} cards of one suit; a flush needs exactly 5 "
+                      f"(and one suit at most can reach it only when 2k > 7)", fn=fn.path, file=fn.file, line=fn.blocks[sb_]["line"],
+                      construct="threshold comparison")
+        return None
+    ctx.ok(rule_f, {"fn": fn.path, "threshold": k, "form": "per-suit counts and keys in one pass, then the key of the suit with 5+"}, sample=True)
+    ctx.ok(rule, {"fn": fn.path, "fold": "key[suit] += weight(rank) over all 7 cards", "weights": weights}, sample=True)
     return weights
 
 
@@ -1071,8 +1250,11 @@ def run(ctx):
         except Unrecognised as e:
             ctx.unrecognised(e.rule, e.msg, e.fn, e.line)
             return None
-    attempt(analyse_finder, ctx, F, finder)
-    weights = attempt(analyse_flush_hash, ctx, F, flush_fn)
+    if arms["Some"].get("fused"):
+        weights = attempt(analyse_fused_flush, ctx, F, flush_fn)
+    else:
+        attempt(analyse_finder, ctx, F, finder)
+        weights = attempt(analyse_flush_hash, ctx, F, flush_fn)
     model = attempt(analyse_rainbow_hash, ctx, F, rainbow_fn)
     codes, code_fn = code_table(F, RANK)
     ctx.analysed([code_fn])
